@@ -17,7 +17,7 @@ BOUNDS = {"quick": "PC: all DAGs n<=4 x all column orders (n=4: the 12 even perm
                    "skeleton_to_pdag: all sepset choices n<=4 and all 29281 DAGs on 5 nodes (minimal sepsets, one node order); to_dag: all 4^6 PDAG codes on 4 nodes (and n<=3)",
           "thorough": "adds all 29281 DAGs on 5 nodes x 6 column orders x {orig, stable}"}
 EXHAUSTIVE = {"quick": True, "thorough": True}
-ASSUMPTIONS = ["max_cond_vars = n (>= max degree)", "independence_match needs every variable to occur in some statement (PC reads the variable set from the list)"]
+ASSUMPTIONS = ["max_cond_vars in {n, maximum degree of the true skeleton} (the property requires >= max degree)", "independence_match needs every variable to occur in some statement (PC reads the variable set from the list)"]
 
 NAMES = ["A", "B", "C", "D", "E"]
 _classes = {}
@@ -103,7 +103,7 @@ def run_group(g, tier):
 def replay(case):
     st = Stats()
     if case["part"] == "pc":
-        _pc_one(st, case["n"], [tuple(e) for e in case["edges"]], case["order"], case["variant"], case["rt"], case["oracle"], case.get("names", "str"))
+        _pc_one(st, case["n"], [tuple(e) for e in case["edges"]], case["order"], case["variant"], case["rt"], case["oracle"], case.get("names", "str"), case.get("mcv"))
     elif case["part"] == "s2p5":
         _s2p5(st, tuple(tuple(e) for e in case["edges"]), 4, only_order=case["order"])
     elif case["part"] == "s2p":
@@ -135,6 +135,13 @@ def _pc(st, n, edges, tier, five=False):
                 if variant == "parallel" and rt == "dag":
                     continue
                 _pc_one(st, n, edges, list(order), variant, rt, "callable", "int" if sum(order) % 2 else "str")
+    if not five and edges:
+        # the tightest admissible bound: max_cond_vars == maximum degree of the true skeleton
+        gsk = G(n, edges)
+        maxdeg = max(len(gsk.adj[v]) for v in range(n))
+        for order in orders[:2] + orders[-1:]:
+            for variant in ("orig", "stable", "parallel"):
+                _pc_one(st, n, edges, list(order), variant, "cpdag", "callable", "str", mcv=maxdeg)
     if not five:
         # independence_match on the complete list of elementary statements, 3 relabelings
         for perm in (orders[0], orders[len(orders) // 2], orders[-1]):
@@ -143,14 +150,14 @@ def _pc(st, n, edges, tier, five=False):
                     _pc_one(st, n, edges, list(perm), variant, rt, "match", "str")
 
 
-def _pc_one(st, n, edges, order, variant, rt, oracle, names):
+def _pc_one(st, n, edges, order, variant, rt, oracle, names, mcv=None):
     import pandas as pd
 
     from pgmpy.estimators import PC
     from pgmpy.independencies import Independencies
 
     g = G(n, edges)
-    case = {"part": "pc", "n": n, "edges": [list(e) for e in edges], "order": order, "variant": variant, "rt": rt, "oracle": oracle, "names": names}
+    case = {"part": "pc", "n": n, "edges": [list(e) for e in edges], "order": order, "variant": variant, "rt": rt, "oracle": oracle, "names": names, "mcv": mcv}
     if oracle == "callable":
         nm = [NAMES[v] for v in range(n)] if names == "str" else list(range(n))
         idx = {x: i for i, x in enumerate(nm)}
@@ -178,7 +185,7 @@ def _pc_one(st, n, edges, order, variant, rt, oracle, names):
     st.evals += 1
     st.transitions += 1
     try:
-        res = pc.estimate(variant=variant, max_cond_vars=n, return_type=rt, show_progress=False, n_jobs=1, **kw)
+        res = pc.estimate(variant=variant, max_cond_vars=n if mcv is None else mcv, return_type=rt, show_progress=False, n_jobs=1, **kw)
     except Exception as ex:
         st.violation("PC.estimate", "exception", case, repr(ex)[:300])
         return
